@@ -766,6 +766,29 @@ class Interp:
                   "sys.float_info"):
             return Obj()
         if short in KEEP_FILTERS:
+            # scipy.ndimage edge handling: every mode but "constant" pads
+            # with samples of the signal itself (affine-equivariant);
+            # "constant" pads with cval (default 0.0), which does not follow
+            # a constant offset of the signal
+            mk = next((k.value for k in n.keywords if k.arg == "mode"), None)
+            if mk is not None and short not in ("medfilt", "savgol_filter"):
+                ms = mk.value if isinstance(mk, ast.Constant) else None
+                if not isinstance(ms, str):
+                    return Top(f"edge mode of `{norm(n)[:50]}` is not a "
+                               "literal")
+                if ms in ("constant", "grid-constant") and \
+                        isinstance(a0, S) and a0.c != 0 and \
+                        not any(k.arg == "cval" for k in n.keywords):
+                    return Err(f"`{norm(n)[:60]}`: the filter pads the "
+                               "edges with zeros, which is not invariant "
+                               "under a constant offset of the signal", n)
+            if short == "savgol_filter" and mk is not None and \
+                    isinstance(mk, ast.Constant) and mk.value == "constant" \
+                    and isinstance(a0, S) and a0.c != 0 and \
+                    not any(k.arg == "cval" for k in n.keywords):
+                return Err(f"`{norm(n)[:60]}`: the filter pads the edges "
+                           "with zeros, which is not invariant under a "
+                           "constant offset of the signal", n)
             return a0 if a0 is not None else Top(cn)
         if short in ("max", "min") and not is_method and len(args) >= 2 \
                 and cn in ("max", "min"):
